@@ -1,10 +1,13 @@
 """
 C02 — joins return PySpark's rows and PySpark's output column list.
 
-proof      : lean/SqlframeModel/Props/C02.lean over the regenerated Gen.Joins (+ Gen.Operations / Gen.Methods / Gen.Clauses)
-tie        : Gen/Joins.lean regenerated from VERIF_REPO on every run and compared with the live Python objects;
+proof      : lean/SqlframeModel/Props/C02.lean over the regenerated Gen.Joins / Gen.JoinMerge (+ Gen.Operations / Gen.Methods / Gen.Clauses)
+tie        : Gen/Joins.lean, Gen/JoinMerge.lean regenerated from VERIF_REPO on every run and compared with the live Python objects;
              stream A: real sqlframe + DuckDB  vs  Impl/C02Prog.lean `runImpl`   (same programs, df.columns + collect() bags)
+             stream M: the real `_add_ctes_to_expression` vs Impl/C02Ctes.lean `mergeCtes` (names and read-sets of the merged WITH clause)
              stream C: Impl/C02Prog.lean `runSpec` vs PySpark 3.5.9 (recorded in tools/oracle/c02_pyspark.json; live JVM in the thorough tier)
+inputs     : joins over independent / common-ancestor / aliased DataFrames and over session.sql statements with user-named CTEs (names that
+             clash with different contents); column names that need quoting; select with star arguments after the join
 search     : the same programs compare the implementation with the specification directly; a difference is a known
              finding only when the model predicts it and every violated named hypothesis is listed as open
 """
@@ -25,12 +28,14 @@ from vlib import Ctx, bag, log, lval, plain
 ID = "C02"
 LEVEL = "proof"
 MODULES = ["SqlframeModel.Props.C02"]
-GEN = ["Joins", "Operations", "Methods", "Clauses"]
+GEN = ["Joins", "JoinMerge", "Operations", "Methods", "Clauses"]
 SOURCES = [
     "SqlframeModel/Props/C02.lean",
     "SqlframeModel/Lemmas/C02.lean",
+    "SqlframeModel/Lemmas/C02Ctes.lean",
     "SqlframeModel/Impl/C02Join.lean",
     "SqlframeModel/Impl/C02Prog.lean",
+    "SqlframeModel/Impl/C02Ctes.lean",
 ]
 ORACLE = os.path.join(vlib.VERIF, "tools", "oracle", "c02_pyspark.json")
 LOCAL_KNOWN = os.path.join(vlib.VERIF, "tools", "props", "c02.known.json")
@@ -158,6 +163,30 @@ def on_to_lean(on):
     raise ValueError(on)
 
 
+def sitem_to_lean(it):
+    k = it[0]
+    if k == "col":
+        return {"col": {"n": it[1], "disp": it[2], "e": pexpr_to_lean(it[3])}}
+    if k == "star":
+        return "star"
+    if k == "starDf":
+        return {"starDf": {"f": it[1]}}
+    if k == "starAlias":
+        return {"starAlias": {"a": it[1], "asStr": bool(it[2])}}
+    raise ValueError(it)
+
+
+def sqlsel_to_lean(q):
+    return {"src": q["src"], "items": [[n, c] for n, c in q["items"]], "wher": pexpr_to_lean(q["where"]) if q.get("where") else None, "inSrc": q.get("in")}
+
+
+def sqlcte_to_lean(c):
+    if "values" in c:
+        v = c["values"]
+        return {"name": c["name"], "body": {"values": {"t": {"cols": v["cols"], "rows": [[lval(x) for x in r] for r in v["rows"]]}}}}
+    return {"name": c["name"], "body": {"sel": {"q": sqlsel_to_lean(c["sel"])}}}
+
+
 def frame_to_lean(fr):
     op = fr["op"]
     if op == "base":
@@ -169,6 +198,10 @@ def frame_to_lean(fr):
         return {"wher": {"src": fr["src"], "p": pexpr_to_lean(fr["p"])}}
     if op == "select":
         return {"select": {"src": fr["src"], "items": [[n, pexpr_to_lean(e)] for n, e in fr["items"]]}}
+    if op == "selectS":
+        return {"selectS": {"src": fr["src"], "items": [sitem_to_lean(it) for it in fr["items"]]}}
+    if op == "sql":
+        return {"sqlq": {"ctes": [sqlcte_to_lean(c) for c in fr["ctes"]], "main": sqlsel_to_lean(fr["main"])}}
     if op == "alias":
         return {"alias": {"src": fr["src"], "a": fr["a"]}}
     if op == "join":
@@ -237,6 +270,27 @@ def show_case(c: dict) -> str:
             for n, e in fr["items"]:
                 items.append(show_pexpr(e) if (e[0] == "ref" and e[1][-2 if e[1][0] == "alias" else -1] == n) else f"{show_pexpr(e)}.alias({n!r})")
             s = f"f{fr['src']}.select({', '.join(items)})"
+        elif op == "selectS":
+            items = []
+            for it in fr["items"]:
+                if it[0] == "col":
+                    e = it[3]
+                    plain_ref = e[0] == "ref" and e[1][-2 if e[1][0] == "alias" else -1] == it[1]
+                    if plain_ref and e[1][0] == "name":
+                        items.append(repr(it[2]))
+                    elif plain_ref and it[2] == it[1]:
+                        items.append(show_pexpr(e))
+                    else:
+                        items.append(f"{show_pexpr(e)}.alias({it[2]!r})")
+                elif it[0] == "star":
+                    items.append("'*'")
+                elif it[0] == "starDf":
+                    items.append(f"f{it[1]}['*']")
+                else:
+                    items.append(repr(f"{it[1]}.*") if it[2] else f"col('{it[1]}.*')")
+            s = f"f{fr['src']}.select({', '.join(items)})"
+        elif op == "sql":
+            s = f"session.sql({sql_text(fr)!r})"
         elif op == "alias":
             s = f"f{fr['src']}.alias({fr['a']!r})"
         elif op == "join":
@@ -313,6 +367,66 @@ def select_arg(n, e, frames, F):
     return build_col(e, frames, F).alias(n)
 
 
+def sitem_arg(it, frames, F):
+    """one argument of select(): a string where the program says so, else a Column"""
+    k = it[0]
+    if k == "star":
+        return "*"
+    if k == "starDf":
+        return frames[it[1]]["*"]
+    if k == "starAlias":
+        return f"{it[1]}.*" if it[2] else F.col(f"{it[1]}.*")
+    _, n, disp, e = it
+    if e[0] == "ref":
+        r = e[1]
+        if r[0] == "name" and r[1] == n:
+            return disp  # a plain string, spelled as the program says
+        if r[0] == "alias" and r[2] == n and disp == n:
+            return f"{r[1]}.{r[2]}" if r[3] else F.col(f"{r[1]}.{r[2]}")
+        if r[0] == "df" and r[2] == n and disp == n:
+            return frames[r[1]][r[2]]
+    return build_col(e, frames, F).alias(disp)
+
+
+SQL_SYM = {"lt": "<", "le": "<=", "gt": ">", "ge": ">=", "eq": "=", "ne": "<>", "and": "AND", "or": "OR", "add": "+", "sub": "-", "mul": "*"}
+
+
+def sql_expr(e) -> str:
+    k = e[0]
+    if k == "ref" and e[1][0] == "name":
+        return e[1][1]
+    if k == "lit":
+        return "NULL" if e[1] is None else str(e[1])
+    if k == "bin" and e[1] in SQL_SYM:
+        return f"({sql_expr(e[2])} {SQL_SYM[e[1]]} {sql_expr(e[3])})"
+    if k == "not":
+        return f"(NOT {sql_expr(e[1])})"
+    if k == "isNull":
+        return f"({sql_expr(e[1])} IS NULL)"
+    raise ValueError(e)
+
+
+def sql_sel_text(q) -> str:
+    items = ", ".join(c if c == n else f"{c} AS {n}" for n, c in q["items"])
+    conds = ([sql_expr(q["where"])] if q.get("where") else []) + ([f"k IN (SELECT k FROM {q['in']})"] if q.get("in") else [])
+    w = f" WHERE {' AND '.join(conds)}" if conds else ""
+    return f"SELECT {items} FROM {q['src']}{w}"
+
+
+def sql_text(fr) -> str:
+    """the statement a `sql` frame hands to session.sql / spark.sql: WITH <user-named CTEs> SELECT …"""
+    parts = []
+    for c in fr["ctes"]:
+        if "values" in c:
+            cols = c["values"]["cols"]
+            rows = ", ".join("(" + ", ".join("NULL" if v is None else str(v) for v in r) + ")" for r in c["values"]["rows"])
+            body = f"SELECT {', '.join(cols)} FROM (VALUES {rows}) AS t({', '.join(cols)})"
+        else:
+            body = sql_sel_text(c["sel"])
+        parts.append(f"{c['name']} AS ({body})")
+    return "WITH " + ", ".join(parts) + " " + sql_sel_text(fr["main"])
+
+
 def run_program(c: dict, session, F, make_base) -> t.Tuple[t.List[str], t.List[t.List[t.Any]]]:
     frames: t.List[t.Any] = []
     for fr in c["frames"]:
@@ -323,6 +437,10 @@ def run_program(c: dict, session, F, make_base) -> t.Tuple[t.List[str], t.List[t
             df = frames[fr["src"]].where(build_col(fr["p"], frames, F))
         elif op == "select":
             df = frames[fr["src"]].select(*[select_arg(n, e, frames, F) for n, e in fr["items"]])
+        elif op == "selectS":
+            df = frames[fr["src"]].select(*[sitem_arg(it, frames, F) for it in fr["items"]])
+        elif op == "sql":
+            df = session.sql(sql_text(fr))
         elif op == "alias":
             df = frames[fr["src"]].alias(fr["a"])
         elif op == "join":
@@ -349,7 +467,16 @@ def run_program(c: dict, session, F, make_base) -> t.Tuple[t.List[str], t.List[t
     return cols, rows
 
 
+def plain_ident(c: str) -> bool:
+    import re
+
+    return re.fullmatch(r"[A-Za-z_][A-Za-z0-9_]*", c) is not None
+
+
 def make_base_sqlframe(session, cols, rows):
+    if not all(plain_ident(c) for c in cols):
+        # a name that needs quoting: the DDL form is not tokenised by createDataFrame; give the names as a list
+        return session.createDataFrame([tuple(r) for r in rows], list(cols))
     ddl = ", ".join(f"{c} bigint" for c in cols)
     return session.createDataFrame([tuple(r) for r in rows], schema=ddl)
 
@@ -689,6 +816,230 @@ def chain_cases(rng: random.Random, thorough: bool) -> t.List[dict]:
     return cases
 
 
+# ------------------------------------------------------------------------------------------------
+# families added after the third seeding round (each is a CLASS of inputs the check did not explore)
+# ------------------------------------------------------------------------------------------------
+
+QUOTED_KEYS = ["order id", "user-id", "k$", "x y-z"]   # names sqlglot renders quoted (`order id`); plain names are the control
+
+
+def quoted_cases(rng: random.Random, thorough: bool) -> t.List[dict]:
+    """column names that are not plain identifiers (a space, a hyphen, a dollar sign): the code renders such a name in two ways
+    (quote-preserving / plain) and every comparison of names inside join() has to use one rendering on both sides"""
+    cases: t.List[dict] = []
+    lk, rk = [1, 2, None, 2], [1, 2, None, 3]
+    hows = SPELLINGS if thorough else ONE_PER_KIND
+    for key in QUOTED_KEYS if thorough else QUOTED_KEYS[:2] + [rng.choice(QUOTED_KEYS[2:])]:
+        for nonkey in ("plain", "quoted-shared", "quoted-distinct"):
+            lcols = [key, "v"] if nonkey == "plain" else [key, "unit price"]
+            rcols = [key, "w"] if nonkey == "plain" else ([key, "unit price"] if nonkey == "quoted-shared" else [key, "list-price"])
+            for how in hows:
+                kind = KIND_OF[how]
+                for on_kind in ("name", "names", "expr"):
+                    if not thorough and nonkey != "plain" and on_kind == "names":
+                        continue
+                    prog = [base(lcols, table_rows(lk, 2, 0)), base(rcols, table_rows(rk, 2, 100))]
+                    on = {"name": {"form": "name", "k": key}, "names": {"form": "names", "ks": [key]},
+                          "expr": {"form": "expr", "e": binop("eq", ref_df(0, key), ref_df(1, key))}}[on_kind]
+                    prog.append({"op": "join", "l": 0, "r": 1, "on": on, "how": how})
+                    posts: t.List[t.Tuple[str, t.List[dict]]] = [("none", [])]
+                    if on_kind != "expr":
+                        posts.append(("where-key", [{"op": "where", "src": 2, "p": binop("gt", ref_name(key), lit(1))}]))
+                        posts.append(("select-key", [{"op": "select", "src": 2, "items": [[key, ref_name(key)], [lcols[1], ref_df(0, lcols[1])]]}]))
+                    else:
+                        sel = [[key, ref_df(0, key)], [lcols[1], ref_df(0, lcols[1])]]
+                        if kind not in ("semi", "anti"):
+                            sel.append([rcols[1], ref_df(1, rcols[1])])
+                        posts.append(("select-sides", [{"op": "select", "src": 2, "items": sel}]))
+                    for pname, post in (posts if (thorough or how in ("inner", "left", "outer")) else [posts[0], rng.choice(posts[1:])]):
+                        cases.append({"frames": prog + post, "origin": f"quoted:{key}:{nonkey}:{how}:{on_kind}:{pname}"})
+        # several keys, quoted and plain mixed; chains of joins on a quoted key
+        for how in (hows if thorough else ["inner", "left", "outer", "semi"]):
+            for ks in ([key, "g"], ["g", key], [key, "user-id" if key != "user-id" else "order id"]):
+                k2 = ks[1] if ks[0] == key else ks[0]
+                prog = [base([key, k2, "v"], [[1, 1, 10], [1, 2, 20], [None, 1, 30], [2, None, 40], [2, 2, 50]]),
+                        base([k2, key, "w"], [[1, 1, 100], [2, 1, 200], [1, None, 300], [2, 2, 400], [2, 2, 500], [3, 3, 600]])]
+                cases.append({"frames": prog + [{"op": "join", "l": 0, "r": 1, "on": {"form": "names", "ks": ks}, "how": how}], "origin": f"quoted:{key}:two-keys:{how}:{ks}"})
+        for h1, h2 in (("left", "left"), ("inner", "outer"), ("inner", "semi"), ("left", "inner")):
+            prog = [base([key, "v"], table_rows(lk, 2, 0)), base([key, "w"], table_rows(rk, 2, 100)), base([key, "z"], [[2, 5], [1, 6], [7, 8]]),
+                    {"op": "join", "l": 0, "r": 1, "on": {"form": "name", "k": key}, "how": h1},
+                    {"op": "join", "l": 3, "r": 2, "on": {"form": "name", "k": key}, "how": h2}]
+            cases.append({"frames": prog, "origin": f"quoted:{key}:chain:{h1}/{h2}"})
+            cases.append({"frames": prog + [{"op": "select", "src": 4, "items": [[key, ref_name(key)], ["v", ref_df(0, "v")]] + ([["z", ref_name("z")]] if h2 != "semi" else [])}],
+                          "origin": f"quoted:{key}:chain-select:{h1}/{h2}"})
+        # the key spelled with capitals on one side (display names of quoted identifiers)
+        for how in ("inner", "left", "outer"):
+            sp = key.title() if key.title() != key else key.upper()
+            prog = [base([key, "v"], table_rows(lk, 2, 0), [sp, "V"]), base([key, "w"], table_rows(rk, 2, 100)),
+                    {"op": "join", "l": 0, "r": 1, "on": {"form": "name", "k": key}, "how": how}]
+            cases.append({"frames": prog, "origin": f"quoted:{key}:spelled:{how}"})
+    return cases
+
+
+def star_cases(rng: random.Random, thorough: bool) -> t.List[dict]:
+    """select() with star arguments on a join block: '*', df['*'], 'a.*', col('a.*'), alone, in pairs and next to ordinary
+    (also re-spelled) columns; references to the key instance a name-join hides (b['k'] after a.join(b, 'k'))"""
+    cases: t.List[dict] = []
+    hows = SPELLINGS if thorough else ONE_PER_KIND
+
+    def col_item(n, e, disp=None):
+        return ["col", n, disp or n, e]
+
+    for shape, variant, rcols0 in (("independent", 0, ["k", "w"]), ("independent", 0, ["k", "v"]), ("aliased", 0, ["k", "w"]), ("aliased", 0, ["k", "v"]),
+                                   ("aliased", 1, ["k", "w"]), ("common", 1, ["k", "w"]), ("common", 3, ["k", "w"]), ("common", 4, ["k", "w"])):
+        for how in hows:
+            kind = KIND_OF[how]
+            left_only = kind in ("semi", "anti")
+            for on_kind in ("name", "expr", "and", "none"):
+                if on_kind == "none" and (kind != "inner" or shape != "independent"):
+                    continue
+                if shape == "common" and not thorough and (how not in ("inner", "left", "right") or on_kind == "and"):
+                    continue
+                prog, li, ri, lcols, rcols = lineage(shape, variant, "mixed", rcols0)
+                on = dict(on_variants(shape, li, ri, lcols, rcols))[on_kind]
+                j = len(prog)
+                prog = prog + [{"op": "join", "l": li, "r": ri, "on": on, "how": how}]
+                lnon = [c for c in lcols if c != "k"][0]
+                rnon = [c for c in rcols if c != "k"][0]
+                sets: t.List[t.Tuple[str, t.List[list]]] = [("star", [["star"]])]
+                if shape == "aliased":
+                    sets.append(("l.*", [["starAlias", "x", True]]))
+                    sets.append(("l.*,z", [["starAlias", "x", False], col_item("z", binop("add", ref_alias("x", lnon), lit(1)))]))
+                    if not left_only:
+                        sets.append(("r.*", [["starAlias", "y", True]]))
+                        sets.append(("col r.*", [["starAlias", "y", False]]))
+                        sets.append(("r.*,l.c", [["starAlias", "y", True], col_item(lnon, ref_alias("x", lnon))]))
+                        sets.append(("r.*,l.*", [["starAlias", "y", True], ["starAlias", "x", True]]))
+                        if on_kind == "name":
+                            sets.append(("r.k,l.k", [col_item("k", ref_alias("y", "k")), col_item("k", ref_alias("x", "k"))]))
+                else:
+                    sets.append(("l*", [["starDf", li]]))
+                    sets.append(("l*,Z", [["starDf", li], col_item("z", binop("add", ref_df(li, lnon), lit(1)), "Zed")]))
+                    if lnon != rnon or left_only:
+                        sets.append(("L,l*", [col_item(lnon, ref_name(lnon), lnon.upper()), ["starDf", li]]))
+                    if not left_only:
+                        sets.append(("r*", [["starDf", ri]]))
+                        sets.append(("r*,l.c", [["starDf", ri], col_item(lnon, ref_df(li, lnon))]))
+                        sets.append(("l.c,r*", [col_item(lnon, ref_df(li, lnon)), ["starDf", ri]]))
+                        sets.append(("r*,l*", [["starDf", ri], ["starDf", li]]))
+                        sets.append(("l*,Z,r*", [["starDf", li], col_item("z", binop("add", ref_df(li, lnon), lit(1)), "Zed"), ["starDf", ri]]))
+                        sets.append(("*,r*", [["star"], ["starDf", ri]]))
+                        if on_kind == "name" and shape != "common":
+                            sets.append(("r.k,l.k,k", [col_item("k", ref_df(ri, "k")), col_item("k", ref_df(li, "k")), col_item("k", ref_name("k"))]))
+                chosen = sets if (thorough or (shape != "common" and how in ("left", "right") and on_kind in ("name", "expr"))) else rng.sample(sets, min(2, len(sets)))
+                for sname, items in chosen:
+                    cases.append({"frames": prog + [{"op": "selectS", "src": j, "items": items}], "origin": f"star:{shape}{variant}:{rcols0[1]}:{how}:{on_kind}:{sname}"})
+                # a filter between the join and the star select stays in the same block
+                if shape != "common" and on_kind in ("name", "expr") and (thorough or how in ("left", "outer", "right")):
+                    wref = ref_alias("x", lnon) if shape == "aliased" else ref_df(li, lnon)
+                    w = {"op": "where", "src": j, "p": binop("gt", wref, lit(15))}
+                    items = [["starAlias", "y", True]] if shape == "aliased" else [["starDf", ri], col_item(lnon, ref_df(li, lnon))]
+                    if left_only:
+                        items = [["star"]]
+                    cases.append({"frames": prog + [w, {"op": "selectS", "src": j + 1, "items": items}], "origin": f"star:{shape}{variant}:{rcols0[1]}:{how}:{on_kind}:where-then-star"})
+                    if on_kind == "name" and not left_only and shape == "independent":
+                        w2 = {"op": "where", "src": j, "p": ["isNull", ref_df(ri, "k")]}
+                        cases.append({"frames": prog + [w2], "origin": f"star:{shape}{variant}:{rcols0[1]}:{how}:{on_kind}:where-hidden-key"})
+                        cases.append({"frames": prog + [w2, {"op": "selectS", "src": j + 1, "items": [["starDf", ri]]}], "origin": f"star:{shape}{variant}:{rcols0[1]}:{how}:{on_kind}:where-hidden-key-star"})
+    # stars over a chain of two joins, and on differently spelled inputs
+    for h1, h2 in (("inner", "left"), ("left", "inner"), ("left", "outer"), ("inner", "inner")):
+        for style in ("name", "expr"):
+            prog = [base(["k", "v"], table_rows([1, 2, None, 2], 2, 0)), base(["k", "w"], table_rows([1, 2, None, 3], 2, 100)), base(["k", "z"], table_rows([1, 3, 2], 2, 200))]
+            on1 = {"form": "name", "k": "k"} if style == "name" else {"form": "expr", "e": binop("eq", ref_df(0, "k"), ref_df(1, "k"))}
+            on2 = {"form": "name", "k": "k"} if style == "name" else {"form": "expr", "e": binop("eq", ref_df(0, "k"), ref_df(2, "k"))}
+            prog += [{"op": "join", "l": 0, "r": 1, "on": on1, "how": h1}, {"op": "join", "l": 3, "r": 2, "on": on2, "how": h2}]
+            for sname, items in (("mid*", [["starDf", 1]]), ("last*", [["starDf", 2]]), ("first*,last.c", [["starDf", 0], col_item("z", ref_df(2, "z"))]), ("star", [["star"]])):
+                cases.append({"frames": prog + [{"op": "selectS", "src": 4, "items": items}], "origin": f"star:chain:{h1}/{h2}:{style}:{sname}"})
+    for how in ("inner", "left", "outer"):
+        for on in ({"form": "name", "k": "cust_id"}, {"form": "expr", "e": binop("eq", ref_df(0, "cust_id"), ref_df(1, "cust_id"))}):
+            prog = [base(["cust_id", "total"], [[1, 10], [2, 20], [None, 99]], ["Cust_ID", "Total"]), base(["cust_id", "region"], [[2, 7], [3, 8]], ["cust_id", "Region"]),
+                    {"op": "join", "l": 0, "r": 1, "on": on, "how": how}]
+            for sname, items in (("r*,T", [["starDf", 1], col_item("total", ref_name("total"), "TOTAL")]), ("T,r*", [col_item("total", ref_name("total"), "TOTAL"), ["starDf", 1]]),
+                                 ("l*,R,Z", [["starDf", 0], col_item("region", ref_name("region"), "REGION"), col_item("z", binop("add", ref_name("total"), lit(1)), "Zed")]),
+                                 ("star", [["star"]])):
+                cases.append({"frames": prog + [{"op": "selectS", "src": 2, "items": items}], "origin": f"star:spelled:{how}:{on['form']}:{sname}"})
+    # no join at all: stars of a plain frame
+    prog = [base(["k", "v"], table_rows([1, 2, None], 2, 0)), {"op": "where", "src": 0, "p": binop("gt", ref_name("v"), lit(10))}]
+    cases.append({"frames": prog + [{"op": "selectS", "src": 1, "items": [["star"], col_item("z", binop("add", ref_name("v"), lit(1)))]}], "origin": "star:nojoin:star,z"})
+    cases.append({"frames": prog + [{"op": "selectS", "src": 1, "items": [["starDf", 0]]}], "origin": "star:nojoin:df*"})
+    return cases
+
+
+CTE_NAMES = ["src", "stg", "tmp"]
+
+
+def sql_frame(names: t.List[str], keys: t.List[t.Any], seed: int, out: str, filt: t.Optional[int] = None, diamond: bool = False) -> dict:
+    """session.sql("WITH n0 AS (<VALUES k, v>), n1 AS (SELECT k, v FROM n0 [WHERE v >= filt]), … SELECT k, v AS out FROM n_last"):
+    the CTE names are the user's and are kept verbatim in the DataFrame's WITH clause"""
+    ctes: t.List[dict] = [{"name": names[0], "values": {"cols": ["k", "v"], "rows": table_rows(keys, 2, seed)}}]
+    for i, n in enumerate(names[1:]):
+        q = {"src": names[i], "items": [["k", "k"], ["v", "v"]], "where": binop("ge", ref_name("v"), lit(filt)) if (filt is not None and i == 0) else None}
+        if diamond and i >= 1:
+            q["in"] = names[0]   # the third CTE reads the second AND the first: WHERE k IN (SELECT k FROM <first>)
+        ctes.append({"name": n, "sel": q})
+    return {"op": "sql", "ctes": ctes, "main": {"src": names[-1], "items": [["k", "k"], [out, "v"]], "where": None}}
+
+
+def sql_cases(rng: random.Random, thorough: bool) -> t.List[dict]:
+    """inputs whose CTE names are NOT content hashes: DataFrames from session.sql statements with user-named CTEs. The same
+    name on both sides of a join then stands for different queries, and merging the WITH clauses has to rename one of them
+    and every later reference to it"""
+    cases: t.List[dict] = []
+    lk, rk, ck = [1, 2, None, 2, 4], [2, 3, None, 4], [2, 4, 4, 9]
+    name_pairs = [(["src"], ["src"]), (["src", "stg"], ["src", "stg"]), (["src", "stg"], ["stg", "src"]), (["src"], ["src", "stg"]), (["src", "stg"], ["src"]),
+                  (["src", "stg"], ["tmp", "src"]), (["src", "stg"], ["tmp", "stg"]), (["src", "stg", "tmp"], ["src", "stg", "tmp"]), (["src", "stg", "tmp"], ["tmp", "src", "stg"]),
+                  (["src", "stg"], ["lhs", "rhs"])]
+    hows = SPELLINGS if thorough else ONE_PER_KIND
+    for ln, rn in name_pairs:
+        for how in hows:
+            kind = KIND_OF[how]
+            for rout in ("refunded", "paid"):
+                if rout == "paid" and not thorough and how not in ("inner", "left", "right"):
+                    continue
+                L = sql_frame(ln, lk, 0, "paid", filt=15 if len(ln) > 1 else None)
+                R = sql_frame(rn, rk, 100, rout)
+                for on_kind in ("name", "expr"):
+                    if on_kind == "expr" and not thorough and how not in ("inner", "left", "right"):
+                        continue
+                    on = {"form": "name", "k": "k"} if on_kind == "name" else {"form": "expr", "e": binop("eq", ref_df(0, "k"), ref_df(1, "k"))}
+                    prog = [L, R, {"op": "join", "l": 0, "r": 1, "on": on, "how": how}]
+                    cases.append({"frames": prog, "origin": f"sql:{'+'.join(ln)}|{'+'.join(rn)}:{rout}:{how}:{on_kind}:none"})
+                    if kind not in ("semi", "anti") and (thorough or how in ("inner", "left", "outer")):
+                        cases.append({"frames": prog + [{"op": "select", "src": 2, "items": [["paid", ref_df(0, "paid")], [rout, ref_df(1, rout)]]}],
+                                      "origin": f"sql:{'+'.join(ln)}|{'+'.join(rn)}:{rout}:{how}:{on_kind}:select-sides"})
+                        cases.append({"frames": prog + [{"op": "selectS", "src": 2, "items": [["starDf", 1]]}],
+                                      "origin": f"sql:{'+'.join(ln)}|{'+'.join(rn)}:{rout}:{how}:{on_kind}:r*"})
+    # a CTE that reads two earlier ones (the rename of the first has to reach the third, past the second)
+    for ln, rn in ((["src", "stg", "tmp"], ["src", "stg", "tmp"]), (["src"], ["src", "stg", "tmp"]), (["stg"], ["src", "stg", "tmp"]), (["src", "stg"], ["src", "mid", "stg"])):
+        for how in (hows if thorough else ["inner", "left", "right", "outer", "semi"]):
+            L = sql_frame(ln, [1, 2, None, 2, 4, 7], 0, "paid", diamond=True)
+            R = sql_frame(rn, rk, 100, "refunded", filt=115, diamond=True)
+            for on in ({"form": "name", "k": "k"}, {"form": "expr", "e": binop("eq", ref_df(0, "k"), ref_df(1, "k"))}):
+                cases.append({"frames": [L, R, {"op": "join", "l": 0, "r": 1, "on": on, "how": how}], "origin": f"sql:diamond:{'+'.join(ln)}|{'+'.join(rn)}:{how}:{on['form']}"})
+    # a statement frame joined with an ordinary DataFrame, either way round; three statements sharing their CTE names
+    for how in (hows if thorough else ["inner", "left", "right", "outer", "anti"]):
+        S = sql_frame(["src", "stg"], rk, 100, "refunded", filt=115)
+        B = base(["k", "v"], table_rows(lk, 2, 0))
+        cases.append({"frames": [B, S, {"op": "join", "l": 0, "r": 1, "on": {"form": "name", "k": "k"}, "how": how}], "origin": f"sql:base|src+stg:{how}"})
+        cases.append({"frames": [S, B, {"op": "join", "l": 0, "r": 1, "on": {"form": "name", "k": "k"}, "how": how}], "origin": f"sql:src+stg|base:{how}"})
+        A, Bq, C = sql_frame(["src", "stg"], lk, 0, "paid"), sql_frame(["src", "stg"], rk, 100, "refunded"), sql_frame(["stg", "src"], ck, 200, "fee", filt=215)
+        for h2 in ("inner", "left"):
+            prog = [A, Bq, C, {"op": "join", "l": 0, "r": 1, "on": {"form": "name", "k": "k"}, "how": how},
+                    {"op": "join", "l": 3, "r": 2, "on": {"form": "name", "k": "k"}, "how": h2}]
+            cases.append({"frames": prog, "origin": f"sql:three:{how}/{h2}"})
+        # the same statement on both sides (equal names AND equal contents)
+        cases.append({"frames": [A, {"op": "join", "l": 0, "r": 0, "on": {"form": "name", "k": "k"}, "how": how}], "origin": f"sql:self:{how}"})
+        A2 = sql_frame(["src", "stg"], lk, 0, "paid")
+        cases.append({"frames": [A, A2, {"op": "join", "l": 0, "r": 1, "on": {"form": "name", "k": "k"}, "how": how}], "origin": f"sql:twin:{how}"})
+    # a CTE called like a column it exposes (H_cteNameNotAColumn)
+    for how in ("inner", "left"):
+        L = {"op": "sql", "ctes": [{"name": "k", "values": {"cols": ["k", "v"], "rows": [[1, 10], [2, 20]]}}], "main": {"src": "k", "items": [["k", "k"], ["v", "v"]], "where": None}}
+        R = {"op": "sql", "ctes": [{"name": "k", "values": {"cols": ["k", "v"], "rows": [[2, 7], [3, 8]]}}], "main": {"src": "k", "items": [["k", "k"], ["w", "v"]], "where": None}}
+        cases.append({"frames": [L, R, {"op": "join", "l": 0, "r": 1, "on": {"form": "name", "k": "k"}, "how": how}], "origin": f"sql:cte-named-like-column:{how}"})
+    return cases
+
+
+
 def random_cases(rng: random.Random, n: int) -> t.List[dict]:
     out = []
     for _ in range(n):
@@ -728,6 +1079,9 @@ def cases_for(ctx: Ctx) -> t.List[dict]:
     cases += single_join_cases(ctx.rng, ctx.thorough)
     cases += chain_cases(ctx.rng, ctx.thorough)
     cases += spelled_cases(ctx.rng, ctx.thorough)
+    cases += quoted_cases(ctx.rng, ctx.thorough)
+    cases += star_cases(ctx.rng, ctx.thorough)
+    cases += sql_cases(ctx.rng, ctx.thorough)
     cases += random_cases(ctx.rng, 3000 if ctx.thorough else 250)
     return cases
 
@@ -750,7 +1104,12 @@ def gen_is_current() -> bool:
     tr = importlib.import_module("translate")
     for g in GEN:
         try:
-            text = tr.GENERATORS[g](vlib.REPO)
+            try:
+                text = tr.GENERATORS[g](vlib.REPO)
+            except tr.Untranslatable:
+                # reported as a broken obligation by `prove`; the committed baseline stands in so that the model can be run
+                with open(os.path.join(tr.BASELINE_DIR, g + ".lean"), encoding="utf-8") as f:
+                    text = f.read()
             with open(os.path.join(vlib.GEN_DIR, g + ".lean"), encoding="utf-8") as f:
                 if f.read() != text:
                     return False
@@ -765,8 +1124,9 @@ def run_driver(cases: t.List[dict]) -> t.List[dict]:
     if not gen_is_current():
         with vlib.lean_lock():
             st = vlib.translate(GEN)
-            if not all(st.get(g, {}).get("ok") for g in GEN):
-                raise RuntimeError("Gen untranslatable: " + "; ".join(f"{g}: {st.get(g, {}).get('reason')}" for g in GEN if not st.get(g, {}).get("ok")))
+            missing = [g for g in GEN if not st.get(g, {}).get("ok") and not os.path.exists(os.path.join(vlib.GEN_DIR, g + ".lean"))]
+            if missing:  # untranslatable and no committed baseline to stand in
+                raise RuntimeError("Gen untranslatable: " + "; ".join(f"{g}: {st.get(g, {}).get('reason')}" for g in missing))
             ok, out = vlib.lake_build(["SqlframeModel.Codec.C02"])
             if not ok:
                 raise RuntimeError("model does not build against the regenerated Gen: " + out[-300:])
@@ -774,8 +1134,17 @@ def run_driver(cases: t.List[dict]) -> t.List[dict]:
 
 
 def evaluate(cases: t.List[dict], workers: int = 0) -> t.List[dict]:
-    outs = run_driver(cases)
-    impls = vlib.parallel_map(run_impl, cases, workers)
+    if len(cases) >= 200 and workers != 1:
+        # the Lean driver (one process) runs while the forked workers run the implementation
+        import concurrent.futures as cf
+
+        with cf.ThreadPoolExecutor(1) as ex:
+            fut = ex.submit(run_driver, cases)
+            impls = vlib.parallel_map(run_impl, cases, workers)
+            outs = fut.result()
+    else:
+        outs = run_driver(cases)
+        impls = vlib.parallel_map(run_impl, cases, workers)
     res = []
     for c, o, impl in zip(cases, outs, impls):
         if "err" in o:
@@ -809,13 +1178,23 @@ def shrink(c: dict, failing: t.Callable[[dict], bool], rounds: int = 8) -> dict:
     for _ in range(rounds):
         cands = []
         fr = best["frames"]
-        if len(fr) > 1 and fr[-1]["op"] in ("select", "where", "limit"):
+        if len(fr) > 1 and fr[-1]["op"] in ("select", "selectS", "where", "limit"):
             cands.append(dict(best, frames=fr[:-1]))
+        if fr[-1]["op"] in ("select", "selectS") and len(fr[-1]["items"]) > 1:
+            for k in range(len(fr[-1]["items"])):
+                cands.append(dict(best, frames=fr[:-1] + [dict(fr[-1], items=fr[-1]["items"][:k] + fr[-1]["items"][k + 1:])]))
         for i, f in enumerate(fr):
             if f["op"] == "base" and len(f["rows"]) > 1:
                 for k in range(len(f["rows"])):
                     nf = dict(f, rows=f["rows"][:k] + f["rows"][k + 1:])
                     cands.append(dict(best, frames=fr[:i] + [nf] + fr[i + 1:]))
+            if f["op"] == "sql":
+                for ci, cte in enumerate(f["ctes"]):
+                    if "values" in cte and len(cte["values"]["rows"]) > 1:
+                        for k in range(len(cte["values"]["rows"])):
+                            rows = cte["values"]["rows"]
+                            nc = dict(cte, values=dict(cte["values"], rows=rows[:k] + rows[k + 1:]))
+                            cands.append(dict(best, frames=fr[:i] + [dict(f, ctes=f["ctes"][:ci] + [nc] + f["ctes"][ci + 1:])] + fr[i + 1:]))
         if not cands:
             break
         res = evaluate(cands, workers=1)
@@ -852,6 +1231,144 @@ def check_gen_against_live(ctx: Ctx) -> None:
         return
     if [tuple(p) for p in pairs] != live:
         ctx.broken.append(f"translator disagreement: Gen.joinTypeMapping {pairs} vs live JOIN_TYPE_MAPPING {live}")
+
+
+# ------------------------------------------------------------------------------------------------
+# stream M: the name-level model of `_add_ctes_to_expression` (Impl/C02Ctes.lean `mergeCtes`, decisions from Gen.JoinMerge)
+# against the real method — names and read-sets of the merged WITH clause; and `quoteName` against the running code
+# ------------------------------------------------------------------------------------------------
+
+MERGE_POOL = ["ca", "cb", "cc", "cd", "ce"]
+MERGE_BASES = ["t1", "t2"]
+
+
+def rand_body(rng: random.Random, names: t.List[str], depth: int = 0):
+    r = rng.random()
+    if depth >= 2 or r < 0.5:
+        return ["lit"] if rng.random() < 0.15 else ["ref", rng.choice(names)]
+    if r < 0.75:
+        return ["un", rng.randrange(3), rand_body(rng, names, depth + 1)]
+    return ["bin", rng.randrange(3), rand_body(rng, names, depth + 1), rand_body(rng, names, depth + 1)]
+
+
+def merge_cases(rng: random.Random, n: int) -> t.List[dict]:
+    """two WITH clauses over a small pool of names: reads go anywhere (backwards, forwards, to the other side's names, to
+    catalog names), so that every combination of clash / no clash / reference to a renamed CTE occurs"""
+    out = []
+    # hand-picked: a chain on the right whose first CTE clashes; two clashes, the second reading the first; no WITH on the left
+    out.append({"existing": [["ca", ["ref", "t1"]]], "ctes": [["ca", ["ref", "t2"]], ["cb", ["ref", "ca"]], ["cc", ["bin", 0, ["ref", "cb"], ["ref", "ca"]]]]})
+    out.append({"existing": [["ca", ["ref", "t1"]], ["cb", ["ref", "ca"]]], "ctes": [["ca", ["ref", "t2"]], ["cb", ["un", 1, ["ref", "ca"]]], ["cc", ["bin", 0, ["ref", "cb"], ["ref", "ca"]]]]})
+    out.append({"existing": [], "ctes": [["ca", ["ref", "t2"]], ["cb", ["ref", "ca"]]]})
+    out.append({"existing": [["cb", ["ref", "t1"]]], "ctes": [["ca", ["ref", "cb"]], ["cb", ["ref", "ca"]], ["cc", ["ref", "cb"]]]})
+    for _ in range(n):
+        en = rng.sample(MERGE_POOL, rng.randrange(0, 4))
+        rn = rng.sample(MERGE_POOL, rng.randrange(1, 5))
+        pool = MERGE_POOL + MERGE_BASES
+        out.append({"existing": [[x, rand_body(rng, pool)] for x in en], "ctes": [[x, rand_body(rng, pool)] for x in rn]})
+    return out
+
+
+def body_to_lean(b):
+    if b[0] == "lit":
+        return {"lit": {"T": {"cols": [], "rows": []}}}
+    if b[0] == "ref":
+        return {"ref": {"n": b[1]}}
+    if b[0] == "un":
+        return {"un": {"f": b[1], "a": body_to_lean(b[2])}}
+    return {"bin": {"f": b[1], "a": body_to_lean(b[2]), "b": body_to_lean(b[3])}}
+
+
+def body_sql(b, ctr: t.List[int]) -> str:
+    if b[0] == "lit":
+        return "SELECT 1 AS one"
+    if b[0] == "ref":
+        return f"SELECT * FROM {b[1]}"
+    ctr[0] += 1
+    i = ctr[0]
+    if b[0] == "un":
+        return f"SELECT * FROM ({body_sql(b[2], ctr)}) AS sq{i} WHERE {b[1]} = {b[1]}"
+    return f"SELECT * FROM ({body_sql(b[2], ctr)}) AS sq{i}l CROSS JOIN ({body_sql(b[3], ctr)}) AS sq{i}r"
+
+
+def run_merge_impl(c: dict):
+    """the real `_add_ctes_to_expression` on sqlglot CTEs built from the case; [[name, sorted names read]] of the result"""
+    import logging
+
+    logging.getLogger("sqlframe").setLevel(logging.ERROR)
+    if vlib.REPO not in sys.path:
+        sys.path.insert(0, vlib.REPO)
+    try:
+        from sqlglot import exp
+
+        s = session()
+        df = s.createDataFrame([(1,)], schema="one bigint")
+        dialect = s.input_dialect
+
+        def mk(name, body):
+            return exp.Select().with_(name, as_=body_sql(body, [0]), dialect=dialect).ctes[0]
+
+        base_expr = exp.select("1")
+        for name, body in c["existing"]:
+            base_expr = base_expr.with_(name, as_=body_sql(body, [0]), dialect=dialect)
+        merged = df._add_ctes_to_expression(base_expr, [mk(n, b) for n, b in c["ctes"]])
+        return [[cte.alias_or_name, sorted(t_.name for t_ in cte.this.find_all(exp.Table))] for cte in merged.ctes]
+    except Exception as e:  # noqa
+        return {"err": f"{type(e).__name__}: {str(e)[:160]}"}
+
+
+def canon_merged(m, known_names: t.Set[str]):
+    """new names (content hashes on one side, "#k" on the other) are numbered in order of first appearance as a CTE name"""
+    if isinstance(m, dict):
+        return m
+    ren: t.Dict[str, str] = {}
+    for name, _ in m:
+        if name not in known_names and name not in ren:
+            ren[name] = f"<new{len(ren)}>"
+    return [[ren.get(n, n), sorted(ren.get(x, x) for x in refs)] for n, refs in m]
+
+
+def check_merge_stream(ctx: Ctx) -> t.Tuple[int, int]:
+    cases = merge_cases(ctx.rng, 400 if ctx.thorough else 120)
+    impls = vlib.parallel_map(run_merge_impl, cases)
+    outs = vlib.run_driver("C02", [{"case": i, "merge": {"existing": [{"name": n, "body": body_to_lean(b)} for n, b in c["existing"]],
+                                                          "ctes": [{"name": n, "body": body_to_lean(b)} for n, b in c["ctes"]]}} for i, c in enumerate(cases)])
+    known_names = set(MERGE_POOL + MERGE_BASES)
+    bad = []
+    renamed = 0
+    for c, impl, o in zip(cases, impls, outs):
+        want = canon_merged(impl, known_names)
+        got = canon_merged([[n, sorted(r)] for n, r in o.get("merged", [])], known_names) if "merged" in o else o
+        if isinstance(want, list) and any(n.startswith("<new") for n, _ in want):
+            renamed += 1
+        if want != got:
+            bad.append((c, want, got))
+    if bad:
+        c, want, got = bad[0]
+        ctx.broken.append(f"correspondence stream M (_add_ctes_to_expression vs Impl/C02Ctes.lean mergeCtes): {len(bad)} of {len(cases)} WITH-clause pairs differ, first: "
+                          f"existing={json.dumps(c['existing'])} ctes={json.dumps(c['ctes'])} implementation={json.dumps(want)[:300]} model={json.dumps(got)[:300]}")
+    return len(cases), renamed
+
+
+RENDER_NAMES = QUOTED_KEYS + ["unit price", "list-price", "k", "v", "cust_id", "g", "_k", "k9", "1st", "é", "a b c", "a-b", "x+y", "p#q"]
+
+
+def check_name_rendering(ctx: Ctx) -> int:
+    """`quoteName` (Impl/C02Join.lean) against the running code: the quote-preserving name of each column of a DataFrame"""
+    if vlib.REPO not in sys.path:
+        sys.path.insert(0, vlib.REPO)
+    try:
+        s = session()
+        live = []
+        for n in RENDER_NAMES:
+            df = s.createDataFrame([(1, 2)], [n, "zz"])
+            live.append(df._get_outer_select_columns(df.expression)[0].alias_or_name)
+        out = vlib.run_driver("C02", [{"case": 0, "names": RENDER_NAMES}])[0]
+        if out.get("quoted") != live:
+            diff = [(n, a, b) for n, a, b in zip(RENDER_NAMES, live, out.get("quoted") or [None] * len(live)) if a != b]
+            ctx.broken.append(f"name rendering: quoteName differs from Column.alias_or_name on {diff[:4]}")
+    except Exception as e:  # noqa
+        ctx.broken.append(f"name rendering could not be exercised: {type(e).__name__}: {str(e)[:200]}")
+    return len(RENDER_NAMES)
 
 
 # ------------------------------------------------------------------------------------------------
@@ -928,10 +1445,13 @@ def run(ctx: Ctx) -> None:
     cases = cases_for(ctx)
     res: t.List[dict] = []
     n_oracle = n_oracle_ok = 0
+    n_merge = n_merge_renamed = n_render = 0
     if driver_ok:
         try:
             res = evaluate(cases)
+            n_merge, n_merge_renamed = check_merge_stream(ctx)
             n_oracle, n_oracle_ok = check_oracle(ctx)
+            n_render = check_name_rendering(ctx)
         except Exception as e:  # the model no longer builds against the regenerated Gen
             ctx.broken.append(f"Lean driver unavailable: {str(e)[-300:]}")
             driver_ok = False
@@ -1040,7 +1560,10 @@ def run(ctx: Ctx) -> None:
         "evaluations": len(res),
         "distinct_nontrivial": len(nontrivial),
         "rule": "corpus; then join spellings x on-forms (name, [names], Column, [Columns], null-safe, none, F.col-based) x lineage (independent | common ancestor, 5 variants | aliased, 2 variants) "
-                "x key multiplicities (plain, NULLs, duplicates, empty left, empty right, mixed) x a following select/where on either side; chains of 2 and 3 joins (+select/where); random draws. "
+                "x key multiplicities (plain, NULLs, duplicates, empty left, empty right, mixed) x a following select/where on either side; chains of 2 and 3 joins (+select/where); "
+                "column names that need quoting (keys, shared and distinct non-keys, several keys, chains, capitalised); select with star arguments ('*', df['*'], 'a.*', col('a.*'), pairs, "
+                "next to plain / re-spelled / computed columns, after a filter, over chains, references to the key instance a name-join hides); joins of session.sql statements whose WITH clauses "
+                "use the same CTE names for different queries (1-3 CTEs per side, chains and a CTE reading two earlier ones, either side an ordinary DataFrame, three statements, the same statement twice); random draws. "
                 "non-trivial = distinct programs whose implementation result has at least one row",
         "traces_validated_against_impl": sum(r["impl_eq_model"] for r in res),
         "impl_vs_spec_agree": sum(1 for r in res if r["in_domain"] and r["impl_eq_spec"]),
@@ -1049,6 +1572,9 @@ def run(ctx: Ctx) -> None:
         "implementation_errors": sum(1 for r in res if "err" in r["impl"]),
         "scope_hypothesis_histogram": scope_hist,
         "origin_histogram": hist,
+        "merge_stream_with_clause_pairs": n_merge,
+        "merge_stream_pairs_with_a_rename": n_merge_renamed,
+        "names_rendered_against_live_code": n_render,
         "pyspark_oracle_programs": n_oracle,
         "pyspark_oracle_agree_with_spec": n_oracle_ok,
         "pyspark_live_programs": live_n,
@@ -1058,7 +1584,9 @@ def run(ctx: Ctx) -> None:
     ctx.assumptions += [
         "DuckDB evaluates one SELECT block as Core/Sql.lean says and one JOIN as Impl/C02Join.lean `joinTables` says (validated by stream A on every program)",
         "sqlglot turns the join_type string into the join Impl/C02Join.lean `kindOfJoinType` names and records `side` as `sideOfJoinType` says",
-        "_add_ctes_to_expression preserves the value of every CTE it copies or renames (CTEs are modelled by their frozen values)",
+        "_add_ctes_to_expression preserves the value of every CTE it copies or renames (Impl/C02Prog.lean carries CTEs by value): proved for the name-level model of the loop (C02_merge_preserves, "
+        "decisions regenerated, model compared with the real method by stream M) for WITH clauses that read backwards; the random filter added to a renamed CTE and the SELECT wrapped around a set operation are assumed value-preserving",
+        "`quoteName` (which names the input dialect renders quoted) is hand-modelled and compared with Column.alias_or_name on the names the generators use",
         "PySpark's meaning of join / select / where / alias is Impl/C02Prog.lean `runSpec` (validated against PySpark 3.5.9: recorded file in the quick tier, live JVM sample in the thorough tier)",
         "bags, not row order, are compared",
     ]
